@@ -4,9 +4,16 @@ import SycVerif.Driver.Sexp
 namespace SycVerif.Driver.AsyncDrv
 open SycVerif.Async SycVerif.Driver
 
+/-- `(G)` (a signal in the current scope) and `(W)` (an effect watching the ambient boundary's loading state and reading
+that signal) have no counterpart in the machine: they neither register tasks nor create scopes -/
+def invisible : Sexp → Bool
+  | .list [.atom "G"] => true
+  | .list [.atom "W"] => true
+  | _ => false
+
 partial def readItem : Sexp → Option Item
-  | .list (.atom "s" :: cs) => (cs.mapM readItem).map .scope
-  | .list (.atom "b" :: cs) => (cs.mapM readItem).map .boundary
+  | .list (.atom "s" :: cs) => ((cs.filter (!invisible ·)).mapM readItem).map .scope
+  | .list (.atom "b" :: cs) => ((cs.filter (!invisible ·)).mapM readItem).map .boundary
   | .list [.atom "t", .atom n] => n.toNat?.map .task
   -- `(u n)`: the loading resource `n` is read under the ambient boundary: one guard, released when the
   -- resource delivers = a task with one await point (completed by the event `rN`, see `usesOf`)
@@ -235,7 +242,7 @@ def handle (line : String) : String :=
   | "suspense" :: rest =>
     match rest.getLast?, Sexp.parse (" ".intercalate rest.dropLast) with
     | some evs, some (.list (.atom "L" :: items0)) =>
-      match items0.mapM readItem with
+      match (items0.filter (!invisible ·)).mapM readItem with
       | some items =>
         let m := buildItems M.init 0 none items
         -- a leading `n` (no executor turn before the first event) makes no difference to the model
